@@ -93,7 +93,7 @@ def check_shape(part, normals, energies, case, key, scale_test=False):
         else:
             for i, lst in enumerate(F):
                 lst = list(lst)
-                if lst and np.abs(V[lst] @ np.asarray(normals)[i] - energies[i]).max() > 1e-6 * scale:
+                if lst and not (np.abs(V[lst] @ np.asarray(normals)[i] - energies[i]).max() <= 1e-6 * scale):
                     part.fail("facet-membership:%s" % key, "facet %d lists a vertex that does not lie on its plane" % i, case)
                     break
                 on_ref = ref_v[np.abs(ref_v @ np.asarray(normals)[i] - energies[i]) < 1e-7 * scale]
@@ -133,7 +133,7 @@ def check_shape(part, normals, energies, case, key, scale_test=False):
             part.dev("volume_rel", abs(abs(sv) - ref_vol) / ref_vol)
             if sv <= 0:
                 part.fail("mesh-inward:%s" % key, "faces are oriented inwards (signed volume %.6g)" % sv, case)
-            if abs(abs(sv) - ref_vol) > 1e-7 * ref_vol:
+            if not (abs(abs(sv) - ref_vol) <= 1e-7 * ref_vol):
                 part.fail("volume:%s" % key, "mesh volume %.9g differs from the half-space intersection's %.9g" % (abs(sv), ref_vol), case)
         # a caller may do what it likes with the mesh it was handed (scale it, move it): asking the construction again gives the
         # shape again, and the vertex list of the construction is untouched
@@ -143,8 +143,8 @@ def check_shape(part, normals, energies, case, key, scale_test=False):
         tm2 = w.to_trimesh()
         mv2, mf2, _ = mesh.merge_vertices(np.asarray(tm2.vertices), np.asarray(tm2.faces), 1e-6 * scale)
         part.tr()
-        if len(mv2) != len(mv) or not (subset(mv2, mv) and subset(mv, mv2)) or abs(abs(mesh.signed_volume(mv2, mf2)) - abs(mesh.signed_volume(mv, mf))) > 1e-7 * ref_vol \
-                or np.abs(np.asarray(w.wulff_vertices, dtype=float) - V_before).max() > 0:
+        if len(mv2) != len(mv) or not (subset(mv2, mv) and subset(mv, mv2)) or not (abs(abs(mesh.signed_volume(mv2, mf2)) - abs(mesh.signed_volume(mv, mf))) <= 1e-7 * ref_vol) \
+                or not (np.abs(np.asarray(w.wulff_vertices, dtype=float) - V_before).max() <= 0):
             part.fail("mesh-follows-callers-edits:%s" % key, "after the caller scaled and moved the mesh returned by to_trimesh(), a second to_trimesh() / wulff_vertices no longer describe the shape", case)
     except Exception as e:
         part.fail("mesh-raise:%s" % key, "to_trimesh / mesh check raised %r" % e, case)
